@@ -659,12 +659,15 @@ func (obj *DenseIntMatrixJointIterator) Index() (int, int) {
   return obj.i, obj.j
 }
 func (obj *DenseIntMatrixJointIterator) Ok() bool {
-  return !(obj.s1.ptr == nil || obj.s1.GetInt() == int(0)) ||
-         !(obj.s2 == nil || obj.s2.GetInt() == int(0))
+  return obj.i != -1
 }
 func (obj *DenseIntMatrixJointIterator) Next() {
   ok1 := obj.it1.Ok()
   ok2 := obj.it2.Ok()
+  if !ok1 && !ok2 {
+    // both iterators are exhausted
+    obj.i, obj.j = -1, -1
+  }
   obj.s1.ptr = nil
   obj.s2 = nil
   if ok1 {
